@@ -140,6 +140,17 @@ def mon_c08_infer(case, verdict, chk):
     # any other rejection is a `diff` of the driver and reported as such
 
 
+# what a !wait-optional item means in each position of the optlist matrix (scripted step `op` returns s = <input>+<step id>)
+OPTLIST_EXPECT = {
+    ("list-item", True): "[x+w y+v]", ("list-item", False): "[y+v]",
+    ("list-item-last", True): "[y+v x+w]", ("list-item-last", False): "[y+v]",
+    ("list-only-item", True): "[x+w]", ("list-only-item", False): "[]",
+    ("list-in-list", True): "[[x+w y+v]]", ("list-in-list", False): "[[y+v]]",
+    ("map-in-list", True): "[map[j:y+v k:x+w]]", ("map-in-list", False): "[map[j:y+v]]",
+    ("list-in-map-field", True): "map[f:[x+w y+v]]", ("list-in-map-field", False): "map[f:[y+v]]",
+}
+
+
 def mon_c08_optlist(case, verdict, chk):
     """optional values as ITEMS of a list (tag x position x source produced or not): the run returns an output that conforms to
     the inferred schema - no internal consistency error, no nil element inside a list"""
@@ -159,6 +170,14 @@ def mon_c08_optlist(case, verdict, chk):
     elif case.get("accepted") and "bug:" in (case.get("err") or ""):
         chk.violation("C08:bug-error:optional-list-item", "Prepare accepted a workflow with %s; the run failed with an internal consistency error: %s"
                       % (what, case["err"][:300]), replay)
+    elif (case.get("accepted") and case.get("tag") == "!wait-optional" and not case.get("err")
+          and (case.get("position"), bool(case.get("source_produced"))) in OPTLIST_EXPECT
+          and case.get("returned") != "map[r:%s]" % OPTLIST_EXPECT[(case.get("position"), bool(case.get("source_produced")))]):
+        # a !wait-optional item is evaluated after its source has finished one way or the other: present (in its position) exactly
+        # when the source was produced, left out otherwise; the other items keep their order (C15's meaning, applied to list items)
+        chk.violation("C08:optional-list-item-wrong-value",
+                      "a workflow with %s returned %s, expected map[r:%s]"
+                      % (what, case.get("returned"), OPTLIST_EXPECT[(case.get("position"), bool(case.get("source_produced")))]), replay)
     elif case.get("accepted") and case.get("nil_element"):
         chk.violation("C08:nil-element-in-list", "a workflow with %s returned a list with a nil element: %s" % (what, case.get("returned")), replay)
 
